@@ -96,9 +96,18 @@ pub fn judge(t: &Target, input: &[u8], mutation: &str, absurd: bool, out: &mut V
     st.add("C06.inputs", 1);
     st.add("transitions", 1);
     let mut r = CountR { data: input, pos: 0 };
+    let probe0 = vglue::probe::snapshot();
     let res = t.e.ops.load(t.c, t.ver, t.ctx, &mut r);
+    let probe1 = vglue::probe::snapshot();
     let mut bad: Option<(&str, String)> = None;
+    // destructor accounting of the probe element type: whatever the loader built it must drop at
+    // most once, and it must never drop what it did not build (an uninitialised array slot)
+    let (made, dropped, garbage) = (probe1.0 - probe0.0, probe1.1 - probe0.1, probe1.2 - probe0.2);
+    if dropped > made || garbage > 0 {
+        bad = Some(("destructor_on_uninitialized", format!("{} destructors ran for {} values constructed ({} on memory that never held a value)", dropped, made, garbage)));
+    }
     match &res {
+        _ if bad.is_some() => {}
         Err(OpErr::Panic(m)) => {
             // an allocation request far beyond anything a (tiny) input can encode is the
             // out-of-memory class the property exempts
@@ -310,6 +319,23 @@ pub fn mutate_encoding(t: &Target, vals: &[Val], thorough: bool, out: &mut Vec<F
     for cut in 0..bytes.len() {
         judge(t, &bytes[..cut], &format!("truncate {}", cut), false, out, st, d);
     }
+    // (e) the schema section replaced by every single structural mutation of its tree
+    // (a different but well-formed schema: the comparison with the program's schema must
+    // answer, not crash)
+    if t.c == Container::Plain && !opaque && payload_at > vmodel::wire::HEADER_LEN {
+        let h = vmodel::wire::HEADER_LEN;
+        if let Ok((rs, used)) = vmodel::schema::decode_schema(&bytes[h..payload_at], 2) {
+            if used == payload_at - h {
+                for (label, m) in crate::schemamut::mutations(&rs) {
+                    let mut f = bytes[..h].to_vec();
+                    f.extend(vmodel::schema::encode_schema(&m, 2));
+                    f.extend_from_slice(&bytes[payload_at..]);
+                    st.add("C06.schema_mutations", 1);
+                    judge(t, &f, &format!("schema {}", label), false, out, st, d);
+                }
+            }
+        }
+    }
 }
 
 pub fn short_strings(t: &Target, out: &mut Vec<Finding>, st: &mut Stats, d: &mut Driver) {
@@ -355,7 +381,7 @@ pub fn run_item(entries: &[Entry], thorough: bool, pos: usize, d: &mut Driver, s
         }
     }
     // bulk containers (the packed path) of derived types and primitives
-    if matches!(e.ty, Ty::Def(_) | Ty::Prim(_)) {
+    if matches!(&e.ty, Ty::Def(_) | Ty::Prim(_)) || matches!(&e.ty, Ty::Lib(l) if l.key == "DropProbe") {
         for ctx in [Ctx::Vec, Ctx::Array3, Ctx::ArrayVec4, Ctx::BoxSlice] {
             let l: Vec<Val> = (0..3).map(|i| vals[(vals.len() - 1 + i) % vals.len()].clone()).collect();
             let t = Target::new(e, ver, Container::Bare, ctx, ctx_ty(ctx, &e.ty));
